@@ -24,12 +24,12 @@ Fixpoint aeval (env : string -> Q) (a : aexp) : Q :=
 
 (* what is written: total_h_x, total_o_x, <master>->total, cb_x, mass_water_aq_x, the coefficient handed to
    add_elt_list/get_elts_in_species, the argument of Set_moles / Set_delta, the `extensive` argument of a call *)
-Inductive target := T_H | T_O | T_TOT | T_CB | T_WATER | T_ELT | T_MOLES | T_DELTA | T_CALL.
+Inductive target := T_H | T_O | T_TOT | T_CB | T_WATER | T_ELT | T_MOLES | T_DELTA | T_CALL | T_LOCAL.
 
 Definition target_eqb (a b : target) : bool :=
   match a, b with
   | T_H, T_H | T_O, T_O | T_TOT, T_TOT | T_CB, T_CB | T_WATER, T_WATER | T_ELT, T_ELT
-  | T_MOLES, T_MOLES | T_DELTA, T_DELTA | T_CALL, T_CALL => true
+  | T_MOLES, T_MOLES | T_DELTA, T_DELTA | T_CALL, T_CALL | T_LOCAL, T_LOCAL => true
   | _, _ => false
   end.
 
